@@ -347,7 +347,9 @@ def cache_discipline(chk, repo, P, full=False):
            "already cached (`ind < len(self.generated)`)", F, hi.lineno)
     gi = methods["__getitem__"]
     pull_ok = False
-    for n in ast.walk(gi):
+    from .c14 import method_closure  # noqa: PLC0415
+    for n in [x for m in method_closure(methods, "__getitem__")
+              for x in ast.walk(m)]:
         if isinstance(n, ast.While) and isinstance(n.test, ast.Compare) \
                 and len(n.test.ops) == 1:
             l = linear_form(n.test.left, "position", var="position")
